@@ -213,8 +213,10 @@ Section Sound.
       - destruct (n <? two32); inversion He; reflexivity.
       - destruct (n <? two64); inversion He; reflexivity.
       - destruct (Nat.eqb (length b) 32 && all_bytes b); inversion He; reflexivity.
-      - destruct (all_bytes b && (N.of_nat (length b) <? two24)); inversion He. now rewrite go_bytes_spec.
-      - destruct (all_bytes b && (N.of_nat (length b) <? two24)); inversion He. now rewrite go_bytes_spec.
+      - destruct (all_bytes b); [|discriminate]. destruct (N.of_nat (length b) <? two24); inversion He.
+        now rewrite go_bytes_spec.
+      - destruct (all_bytes b); [|discriminate]. destruct (N.of_nat (length b) <? two24); inversion He.
+        now rewrite go_bytes_spec.
       - inversion He. now rewrite enc_bool_literal.
       - (* vector *)
         apply ty_ok_vector in Hok as (Hok' & g0 & Hg0 & _). rewrite Hg0 in Hg. inversion Hg; subst g.
